@@ -2,6 +2,7 @@ import Heathcliff.Proofs.C12A
 import Heathcliff.Proofs.C12D
 import Heathcliff.Proofs.C12E
 import Heathcliff.Proofs.GenDwt
+import Heathcliff.Proofs.GenCkks
 
 /- C12 — CKKS encoding is the rounded scaled canonical embedding on every path.
    Property theorems only (proofs are the helper lemmas of Heathcliff/Proofs/C12A..E).  The model is
@@ -212,7 +213,49 @@ theorem gen_fft_transform_from_rev_eq {α ρ σ : Type} [Inhabited α] (A : Arit
     GenD.transform_from_rev (gd_total A ms) vals k roots sc = .ok (gd_scaled ms sc (runInvA A k rf vals.toArray k).toList) :=
   HC.gd_transform_from_rev_total A ms k hk vals hv roots rf hrf sc
 
+/-! ### translator tie (phase 4k, "encoder mode"): the INTEGER side of `encode_internal_c64_array` / `_f64_polynomial` / `_f64_single` /
+     `_i64_single` is regenerated from src/ckks_encoder.rs into Gen/CkksFns.lean (`HC.GenK`): the maximum scan giving the bit count, the refusal,
+     the three-way path selection, the sign branches and the reduction loops; floats enter through the documented readings only
+     (tools/rs2lean_ckks.py, notes/work7-Y.md).  Proved about the GENERATED code (Proofs/GenCkks.lean): -/
+
+/-- ≤ 64-bit path, as generated (both sign branches): `negate_u64_mod(reduce(|c| as u64))` resp. `reduce(|c| as u64)` is c mod q for EVERY
+    integer c with |c| < 2^64, negatives (and negative multiples of q: residue 0) included -/
+theorem gen_path64_element : type_of% @HC.gk_elem64 := @HC.gk_elem64
+/-- ≤ 128-bit path, as generated: the two-word split `[|c| % 2^64, |c| / 2^64]`, `barrett_reduce_u128`, `negate_u64_mod` when negative -/
+theorem gen_path128_element : type_of% @HC.gk_elem128 := @HC.gk_elem128
+/-- the scan the generated code performs (`maxAll`: ALL entries) bounds EVERY per-coefficient bit count -/
+theorem gen_max_scan_all : type_of% @HC.gk_maxAll_spec := @HC.gk_maxAll_spec
+/-- the generated functions refuse as soon as (max over all coefficients) + 1 ≥ total bit count -/
+theorem gen_c64_array_refuses : type_of% @HC.gk_c64_array_refuses := @HC.gk_c64_array_refuses
+theorem gen_f64_polynomial_refuses : type_of% @HC.gk_f64_polynomial_refuses := @HC.gk_f64_polynomial_refuses
+/-- the `[component][coefficient]` layout of the generated nested loops: a loop storing `f j` at `i + j·N` fills row i only; all rows -/
+theorem gen_row_layout : type_of% @HC.gk_row_spec := @HC.gk_row_spec
+theorem gen_rows_layout : type_of% @HC.gk_rows_spec := @HC.gk_rows_spec
+
+/-- FULL statement (NOT proved; the pieces above are its ingredients, the assembly over the generated nested loops and the multi-word
+    path's `while` loop were left out for time): for a valid CKKS level with well-formed moduli, N = 2·slots coefficients whose scan bit
+    count is below the total bit count, the generated `encode_internal_c64_array` hands `ntt_p` a buffer with `c_i mod q_j` at `i + j·N`. -/
+def GenC64ArrayStatement : Prop :=
+  ∀ (moduli : List Modulus) (cc slots nvalues total_bits : Nat) (cb : List Nat) (rc : List Int)
+    (decompose : List Nat → R (List Nat)) (nttP : List Nat → Nat → R (List Nat)) (dest : List Nat) (mb : Nat),
+    (∀ j (h : j < moduli.length), moduli[j].WF) → slots * 2 = cc → 0 < cc → cc * moduli.length < 2^64 → nvalues ≤ slots →
+    cb.length = cc → rc.length = cc → (∀ i (h1 : i < cb.length) (h2 : i < rc.length), rc[i].natAbs ≤ 2^cb[i]) →
+    GenK.maxAll cb = .ok mb → mb + 1 < total_bits → total_bits ≤ 64 * moduli.length →
+    (∀ a ws, a < 2^(64 * moduli.length) → ws = limbsOf moduli.length a →
+      decompose ws = .ok ((List.range moduli.length).map fun j => a % (moduli.getD j default).value)) →
+    ∃ d', d'.length = cc * moduli.length ∧
+      (∀ i j (hi : i < rc.length) (hj : j < moduli.length), d'[i + j * cc]? = some (c12_res rc[i] moduli[j].value)) ∧
+      GenK.encode_internal_c64_array true true nvalues slots true total_bits moduli cc moduli.length cb rc decompose nttP dest = nttP d' cc
+
 /-! ### non-vacuity -/
+/-- a negative coefficient crossing 2^64: the generated two-word split of −(2^64 + 5) is [5, 1]; its residue mod 7 -/
+example : GenK.fToU64 (GenK.fmod64 (GenK.fabs (-(2^64 + 5)))) = 5 ∧ GenK.fToU64 (GenK.fdiv64 (GenK.fabs (-(2^64 + 5)))) = 1 := by decide
+/-- … and 2^64 + 5 is a multiple of 7: the negative branch must give 0 (the zero case of `negate_u64_mod`), not 7 -/
+example : c12_res (-(2^64 + 5)) 7 = 0 ∧ c12_res (-(2^64 + 6)) 7 = 6 := by decide
+/-- a magnitude between two primes of a non-monotone chain (101, 97): 100 is reduced mod 97 but not mod 101; −97 gives residue 0 -/
+example : c12_res 100 101 = 100 ∧ c12_res 100 97 = 3 ∧ c12_res (-97) 97 = 0 := by decide
+/-- the scan: the dominant coefficient sits in the second half; a scan of the first half would give 3, not 70 -/
+example : GenK.maxAll [3, 1, 70, 2] = .ok 70 ∧ GenK.maxPrefix [3, 1, 70, 2] 2 = .ok 3 := by decide
 example : c12_res (-5) 7 = 2 := by decide
 example : getRootSel 8 3 3 = .ok ⟨1, false, true, false⟩ := by decide
 example : (indexMap 2).toList = [0, 2, 3, 1] := by decide
